@@ -1,8 +1,27 @@
 # run configuration of C12 for bin/check (see bin/props.py)
 PROP = {'level': 'exploration',
- 'level_text': 'placeholder',
- 'level_note': '',
- 'technique': 'runtime monitoring: crash / allocation / step-budget monitors around every parser entry point, inputs by structure-aware mutation of valid files',
+ 'level_text': 'Valid files of every external format (CAR, the seven IPLD node kinds, compactindexsized incl. the four typed indexes, both deprecated '
+               'compact-index formats, sig-exists current and deprecated, block-time index, gsfa linked log / manifest / whole gsfa directory, index '
+               'metadata, transaction-status metadata as protobuf and both bincode generations, zstd frames) are produced by the repository\'s own '
+               'writers and then mutated with format knowledge: every length / count / size / offset field set to ~60 boundary values (0, 1, 2^k-1, '
+               '2^k, 2^k+1, max, file size +-1, remaining bytes +-1, original +-1 ...), every CBOR item replaced by items of every other major type / '
+               're-typed in place / given boundary arguments / deleted / duplicated, metadata values of every length, truncation at every field '
+               'boundary, byte sweeps over the headers, bit flips, random bytes behind a valid magic, hand-made hostile documents (zstd RLE bombs and '
+               'frames that only DECLARE a huge content size, linked-log records pointing to themselves, deep CBOR nesting). Every input is driven '
+               'through every exported opening / decoding / querying entry point as a sequence of named steps inside a child process; in package '
+               'main a whole generated epoch is loaded by NewEpochFromConfig with one hostile file (or a CAR whose node bytes were edited in place) '
+               'and queried through Epoch methods and the JSON-RPC handler.',
+ 'level_note': 'exploration of a seeded, bounded case list (not exhaustive, no coverage feedback: native coverage-guided fuzzing is not part of the check); '
+               'an error return is always accepted; allocation is judged per step against 256 MiB for inputs <= 1 MiB (288 MiB where the code has a '
+               'deliberate 256 MiB record cap); non-termination is decided only by operation counts (sections returned > input bytes; > 500 000 read '
+               'system calls on a <= 1 MiB input), a wall-clock watchdog expiry is INCONCLUSIVE; the index builders (createAllIndexes over a hostile '
+               'CAR), Filecoin/lassie and HTTP-remote readers are not driven; after three process deaths with the same key on mutants of one field '
+               'the remaining mutants of that field are skipped (reported in the evidence)',
+ 'technique': 'runtime monitoring: per-step panic capture (recover + innermost repository frame), allocation meter (runtime/metrics + heap profile of '
+              'the re-executed step), RLIMIT_AS-bounded child processes with write-ahead journal for deaths recover() cannot see, read-syscall step '
+              'budget, wall-clock watchdog (inconclusive only); inputs by structure-aware mutation of valid files',
  'rule': 'see parts',
+ 'assumptions': ['violation key = <outermost exported function of the faulting package on the stack>/<failure class>/<innermost repository function>'],
  'race_allow': [],
- 'runs': [{'name': 'lib', 'pkg': './indexes', 'run': '^TestVerifC12$', 'timeout': '30m', 'timeout_thorough': '120m'}]}
+ 'runs': [{'name': 'lib', 'pkg': './indexes', 'run': '^TestVerifC12$', 'timeout': '30m', 'timeout_thorough': '120m'},
+          {'name': 'main', 'pkg': '.', 'run': '^TestVerifC12Main$', 'timeout': '30m', 'timeout_thorough': '120m'}]}
